@@ -1,6 +1,7 @@
 (* C20  Parameter files, units and snapshots round-trip.
    Only statements, each closed by [exact] of a lemma of Cxx/C20_Proofs.v.
-   Models: Cxx/C20_Defs.v (YAMLDictionary parser/printer, Unit/UnitConverter, snapshot index).
+   Models: Cxx/C20_Defs.v (YAMLDictionary parser/printer, Unit/UnitConverter, snapshot index),
+           Cxx/C20_SnapDefs.v (cell orderings of the HDF5 snapshot writer and of the snapshot reader; lemmas in Cxx/C20_SnapProofs.v).
 
    Vocabulary (Cxx/C20_Proofs.v):
      entry = (groups, name, value); its key is  g1:g2:..:name  (join_key), dict_of es the std::map content.
@@ -10,9 +11,9 @@
                      strictly increasing in std::string order (byte-wise, unsigned) -- i.e. es is the content
                      of a std::map.  No bound on the nesting depth; a name may be both a group and a value. *)
 From Coq Require String.
-From Coq Require Import List Ascii ZArith Reals QArith Floats Sorted.
+From Coq Require Import List Ascii ZArith Reals QArith Qabs Floats Sorted.
 Import String.StringSyntax.
-From CMI Require Import Cxx.C20_Defs Cxx.C20_Proofs.
+From CMI Require Import Cxx.C20_Defs Cxx.C20_Proofs Cxx.C20_SnapDefs Cxx.C20_SnapProofs.
 Import ListNotations.
 
 (* Printing a dictionary and parsing the printed lines gives the dictionary back.  The printer's pop loop
@@ -147,3 +148,113 @@ Theorem C20_snapshot_index_inverse : forall (n i : Z) (anchor side : Q),
   snap_fill_index n side (cell_mid n i anchor side - anchor)%Q = i.
 Proof. exact snapshot_index_inverse. Qed.
 Print Assumptions C20_snapshot_index_inverse.
+
+(* ---- snapshot write -> read (Cxx/C20_SnapDefs.v).  Vocabulary:
+     S = number of subgrids per axis, B = cells per subgrid per axis (triples, all components >= 1: pos3), N = mul3 S B
+     wr_entries S B   : the appends of GadgetDensityGridWriter::write(grid_creator, ..) in execution order (subgrid loop,
+                        blocks of 10000 cells, running block_offset): (position in the dataset, (subgrid, cell in subgrid))
+     rd_entries S N   : the stores of CMacIonizeSnapshotDensityFunction::initialize(), branch "TaskBased", in execution
+                        order (six nested loops): ((ix, iy, iz), cell_index); numblock = N / S as in the code
+     snapshot_file S B f : dataset content after the writer ran on a grid with cell values f (stores executed in order)
+     rd_grid S N file : _cartesian_grid after initialize();  rd_value .. pos : operator() for a position
+     sub_position / three_index / global_cell : DensitySubGridCreator::create_subgrid, DensitySubGrid::get_three_index,
+                        and the cell of the whole grid that cell c of subgrid g is;  sub_mid : its midpoint as the grid computes it *)
+
+(* the writer puts cell c of subgrid g at position g * (cells per subgrid) + c, for every layout *)
+Theorem C20_snapshot_writer_positions : forall S B p g c, pos3 S -> pos3 B ->
+  In (p, (g, c)) (wr_entries S B) <-> (0 <= g < prod3 S /\ 0 <= c < prod3 B /\ p = g * prod3 B + c)%Z.
+Proof. exact in_wr_entries. Qed.
+Print Assumptions C20_snapshot_writer_positions.
+
+(* .. which is a bijection between (subgrid, cell) and the positions 0 .. ncell-1 *)
+Theorem C20_snapshot_writer_bijective : forall S B, pos3 S -> pos3 B ->
+  (forall p, (0 <= p < prod3 S * prod3 B)%Z <-> exists g c, In (p, (g, c)) (wr_entries S B)) /\
+  (forall p g c g' c', In (p, (g, c)) (wr_entries S B) -> In (p, (g', c')) (wr_entries S B) -> g = g' /\ c = c') /\
+  (forall p p' g c, In (p, (g, c)) (wr_entries S B) -> In (p', (g, c)) (wr_entries S B) -> p = p').
+Proof. exact wr_positions_bijective. Qed.
+Print Assumptions C20_snapshot_writer_bijective.
+
+Theorem C20_snapshot_file_content : forall (V : Type) S B (f : Z3 -> V) g c, pos3 S -> pos3 B ->
+  (0 <= g < prod3 S)%Z -> (0 <= c < prod3 B)%Z ->
+  snapshot_file S B f (g * prod3 B + c)%Z = Some (f (global_cell S B g c)).
+Proof. exact snapshot_file_content. Qed.
+Print Assumptions C20_snapshot_file_content.
+
+(* the stores of the reader are exactly (target, index) for the block positions si and cells-in-block ci of the loops *)
+Theorem C20_snapshot_reader_entries : forall S N t src,
+  In (t, src) (rd_entries S N) <->
+  exists si ci, in3 si S /\ in3 ci (div3 N S) /\ t = rd_target S N si ci /\ src = rd_cell_index S N si ci.
+Proof. exact in_rd_entries. Qed.
+Print Assumptions C20_snapshot_reader_entries.
+
+(* the reader's linear index of (block, cell in block) is the position at which the writer put that cell: for ALL
+   block counts and cells per block >= 1, cubic or not *)
+Theorem C20_snapshot_reader_index_is_writer_position : forall S B si ci, pos3 S -> pos3 B -> in3 si S -> in3 ci B ->
+  let N := mul3 S B in
+  let g := rd_subgrid_index S si in
+  let c := one_index B ci in
+  rd_cell_index S N si ci = (g * prod3 B + c)%Z /\
+  In (rd_cell_index S N si ci, (g, c)) (wr_entries S B) /\
+  global_cell S B g c = rd_target S N si ci /\
+  sub_position S g = si /\ three_index B c = ci /\
+  (0 <= rd_cell_index S N si ci < prod3 N)%Z.
+Proof. exact reader_index_is_writer_position. Qed.
+Print Assumptions C20_snapshot_reader_index_is_writer_position.
+
+(* the reader's stores hit every cell of the grid exactly once and use every position of the datasets exactly once *)
+Theorem C20_snapshot_reader_bijective : forall S B, pos3 S -> pos3 B ->
+  let N := mul3 S B in
+  (forall t, in3 t N <-> exists src, In (t, src) (rd_entries S N)) /\
+  (forall src, (0 <= src < prod3 N)%Z <-> exists t, In (t, src) (rd_entries S N)) /\
+  (forall t src src', In (t, src) (rd_entries S N) -> In (t, src') (rd_entries S N) -> src = src') /\
+  (forall t t' src, In (t, src) (rd_entries S N) -> In (t', src) (rd_entries S N) -> t = t').
+Proof. exact rd_entries_bijective. Qed.
+Print Assumptions C20_snapshot_reader_bijective.
+
+(* read back = written: the two index maps composed with an arbitrary field f *)
+Theorem C20_snapshot_grid_roundtrip : forall (V : Type) S B (f : Z3 -> V) t, pos3 S -> pos3 B ->
+  in3 t (mul3 S B) -> rd_grid S (mul3 S B) (snapshot_file S B f) t = Some (f t).
+Proof. exact snapshot_grid_roundtrip. Qed.
+Print Assumptions C20_snapshot_grid_roundtrip.
+
+(* the midpoint the grid computes for cell i of subgrid g is the midpoint of cell g*b+i of the box (cell_mid of
+   C20_snapshot_index_inverse), and operator() looks that cell up for it (exact arithmetic) *)
+Theorem C20_snapshot_subgrid_midpoint : forall s b g i anchor side, (1 <= s)%Z -> (1 <= b)%Z ->
+  (sub_mid s b g i anchor side == cell_mid (s * b) (g * b + i) anchor side)%Q.
+Proof. exact sub_mid_is_cell_mid. Qed.
+Print Assumptions C20_snapshot_subgrid_midpoint.
+
+Theorem C20_snapshot_midpoint_lookup_is_cell : forall S B g c anchor side, pos3 S -> pos3 B -> nonzero3 side ->
+  (0 <= g < prod3 S)%Z -> (0 <= c < prod3 B)%Z ->
+  lookup_cell (mul3 S B) anchor side (sub_mid3 S B g c anchor side) = global_cell S B g c /\
+  in3 (global_cell S B g c) (mul3 S B).
+Proof. exact midpoint_lookup_is_cell. Qed.
+Print Assumptions C20_snapshot_midpoint_lookup_is_cell.
+
+(* the whole chain: a grid on the same geometry initialised from the snapshot gets, in the cell at the position of
+   cell c of subgrid g, the value that cell had when the snapshot was written *)
+Theorem C20_snapshot_roundtrip : forall (V : Type) S B (f : Z3 -> V) anchor side g c, pos3 S -> pos3 B -> nonzero3 side ->
+  (0 <= g < prod3 S)%Z -> (0 <= c < prod3 B)%Z ->
+  rd_value S (mul3 S B) anchor side (snapshot_file S B f) (sub_mid3 S B g c anchor side) = Some (f (global_cell S B g c)).
+Proof. exact snapshot_roundtrip. Qed.
+Print Assumptions C20_snapshot_roundtrip.
+
+(* legacy pair: write(DensityGrid &) stores long index order plus coordinates; the "Cartesian" branch places each entry
+   by its stored coordinate; every cell of an N grid reads back its own value *)
+Theorem C20_snapshot_legacy_roundtrip : forall (V : Type) N (f : Z3 -> V) anchor side t, pos3 N -> nonzero3 side -> in3 t N ->
+  lg_rd_value N anchor side (prod3 N) (lg_file N anchor side f) (cart_mid3 N t anchor side) = Some (f t).
+Proof. exact legacy_snapshot_roundtrip. Qed.
+Print Assumptions C20_snapshot_legacy_roundtrip.
+
+(* the hypothesis "same anchor and sides" is needed: with the box known only to the printed precision of the used
+   values (6 significant digits, what the /Parameters block of a snapshot holds in the pinned tree) the reader looks up
+   ANOTHER cell.  REFUTES "read back on the same geometry" for the real chain; witness replayed on the real code by the
+   probe snapshot_box_precision of props/c20.py; repaired by hooks/c20_fix_snapshot_box_precision.patch *)
+Theorem C20_snapshot_printed_precision_box_refuted :
+  exists (n i : Z) (anchor side anchor' side' : Q),
+    (0 <= i < n)%Z /\ ~ (side == 0)%Q /\ ~ (side' == 0)%Q /\
+    (Qabs (anchor' - anchor) <= (5 # 1000000) * Qabs anchor)%Q /\
+    (Qabs (side' - side) <= (5 # 1000000) * Qabs side)%Q /\
+    snap_lookup_index n anchor' side' (cell_mid n i anchor side) <> i.
+Proof. exact snapshot_printed_precision_box_refuted. Qed.
+Print Assumptions C20_snapshot_printed_precision_box_refuted.
